@@ -518,6 +518,13 @@ func (a *act) callStatic(fn *ssa.Function, binds, args, full []Val, guard string
 			return a.freshResults(fn.Signature, fn.Name(), guard)
 		}
 	}
+	if fx.lockMode && a.top && fn.Pkg != nil && fn.Pkg.Pkg.Path() == "sync" && (fn.Name() == "Lock" || fn.Name() == "RLock") && len(full) > 0 {
+		// atomicity: one activation enters the critical section of a given lock at most once
+		acq := fx.sv(st, "$acq", ArrS(SRef, SInt))
+		what := e.srcText(pos, nil)
+		fx.addObl("atomic", a.prefix()+"single critical section: "+what, guard, Eq(Sel(acq, full[0].T), "0"), pos, "the lock is acquired a second time in the same call: the method is not one atomic step")
+		fx.setSV(st, "$acq", ArrS(SRef, SInt), Store(acq, full[0].T, "1"))
+	}
 	if sp, ok := e.specs.Funcs[key]; ok && !sp.Inline && !(sp.Lemma) {
 		return a.applyContract(sp, fn, nil, full, guard, st, pos, sig)
 	}
